@@ -19,7 +19,7 @@ class Gen5(P.Gen):
 
     def __init__(self, rng, **kw):
         super().__init__(rng, **kw)
-        self.w.update({"dupselect": 0.8, "joinpick": 1.2, "exclude": 1.6, "knownjoin": 1.5, "joinsplitpick": 1.5, "casealias": 0.5})
+        self.w.update({"dupselect": 0.8, "joinpick": 1.2, "exclude": 1.6, "knownjoin": 1.5, "joinsplitpick": 1.5, "casealias": 0.5, "unnamedjoin": 0.4})
         P.nid("zz")
 
     def t_dupselect(self, st):
@@ -99,6 +99,41 @@ class Gen5(P.Gen):
                       "TJoin %s %d%%N %s %s %s" % (side, P.nid("u"), P.coq_names(ucols), usel, P.coq_expr(on)), side=side)
 
 
+    def t_unnamedjoin(self, st):
+        """the joined sub-pipeline ends in two UN-NAMED computed columns next to named ones (its table instance has two columns
+        of the same `no name`); either the unnamed columns reach the result (no closing select), or a closing select picks
+        named columns of both sides.  Inner join only: the reference semantics' null-extension of a left join names its columns"""
+        r = self.r
+        if st["joined"] or st["cols"] != [(None, c) for c in P.TABLES["t"]] or any(x.kind not in ("sort", "filter", "take") for x in st["steps"]):
+            return None
+        on = ("bin", "Eq", ("col", "t", "g"), ("col", "u", "g"))
+        st["steps"].append(P.Step("select", "select {%s}" % ", ".join(P.TABLES["t"]), "TExclude [(None, %d%%N)]" % P.nid("zz"), known=True))
+        e1 = ("bin", "Add", ("col", None, "a"), ("lit", 1))
+        e2 = ("bin", r.choice(["Add", "Mul"]), ("col", None, "d"), ("lit", r.choice([1, 2])))
+        named = ["id", "g"] if r.random() < 0.7 else ["id", "g", "d"]
+        uitems = [P.prql_expr(e1), P.prql_expr(e2)] + named
+        ucoq = ["(None, %s)" % P.coq_expr(e1), "(None, %s)" % P.coq_expr(e2)] + ["(None, ECol None %d%%N)" % P.nid(c) for c in named]
+        if r.random() < 0.5:
+            uitems, ucoq = uitems[2:] + uitems[:2], ucoq[2:] + ucoq[:2]
+        usel = "(Rel.apply (TSelect [%s]) U_TABLE)" % "; ".join(ucoq)
+        join = P.Step("unnamedjoin", "join u=(from u | select {%s}) (%s)" % (", ".join(uitems), P.prql_expr(on)),
+                      "TJoin Inner %d%%N %s %s %s" % (P.nid("u"), P.coq_names(named), usel, P.coq_expr(on)), side="Inner")
+        st["joined"] = True
+        st["uniq"] = None
+        st["order"] = None
+        st["stop"] = True
+        n = len(st["steps"])
+        ucols = [("u", "?%d_%d" % (n, i)) if "(" in it else ("u", it) for i, it in enumerate(uitems)]
+        if r.random() < 0.5:
+            st["cols"] = [("t", c) for c in P.TABLES["t"]] + ucols
+            return join
+        st["steps"].append(join)
+        picks = [("t", r.choice(["a", "b", "c"])), ("u", "id")] + ([("t", "g")] if r.random() < 0.5 else [("u", "g")])
+        r.shuffle(picks)
+        st["cols"] = [(None, c) for _, c in picks]
+        return P.Step("unnamedpick", "select {%s}" % ", ".join("%s.%s" % p for p in picks),
+                      "TSelect [%s]" % "; ".join("(None, ECol (Some %d%%N) %d%%N)" % (P.nid(q), P.nid(c)) for q, c in picks))
+
     def t_casealias(self, st):
         """an alias that differs from its source column only by case: PRQL names are case-sensitive, so this is a
         NEW column next to the old one (terminal: engines resolve later references case-insensitively)"""
@@ -135,6 +170,7 @@ class Gen5(P.Gen):
         return self.t_joinpick(st)
 
 
+TERMINAL = ("joinpick", "dupselect", "unnamedjoin", "unnamedpick")
 EXCLUDING = ("sql.duckdb", "sql.bigquery", "sql.snowflake")     # dialects with `* EXCLUDE (..)` / `* EXCEPT (..)`
 
 
@@ -152,9 +188,14 @@ def classify(rec):
         return "F23-helper-column-exposed"      # same root: a star cannot exclude on this dialect, here a user-excluded column leaks
     if rec["verdict"] == "sql-err" and re.search(r"no such column: _expr_\d+", str(rec.get("sqlite"))) and "join" in kinds and re.search(r"SELECT \w+\.\*, u\.\*", sql):
         return "F24-dangling-renamed-duplicate"
-    if ("joinpick" in kinds or "knownjoin" in kinds or "join" in kinds) and any(re.fullmatch(r"_expr_\d+", c) for c in cols) and re.search(r" AS \"?_expr_\d+\"?", sql):
-        return "F34-renamed-duplicate-name-leaks"
     cols_n, frame_n = len(rec.get("sqlite_cols") or []), len(rec.get("model_names") or [])
+    if ("joinpick" in kinds or "knownjoin" in kinds or "join" in kinds) and any(re.fullmatch(r"_expr_\d+", c) for c in cols) and re.search(r" AS \"?_expr_\d+\"?", sql) \
+            and cols_n == frame_n:
+        return "F34-renamed-duplicate-name-leaks"     # a NAME is wrong; a missing column is F13's class (below)
+    if rec["verdict"] == "panic" and kinds and kinds[-1] == "unnamedjoin":
+        pn = (rec.get("compile") or {}).get("panic", {})
+        if "called `Option::unwrap()` on a `None` value" in pn.get("msg", "") and "sql/gen_expr.rs" in pn.get("loc", ""):
+            return "F45-unnamed-operand-column-panic"
     if rec["verdict"] in ("names", "rows") and cols_n < frame_n:
         last_select = sql[sql.rfind("SELECT "):]
         sel_list = last_select[:last_select.find(" FROM ")] if " FROM " in last_select else last_select
@@ -395,7 +436,7 @@ def run():
     for i in range(n):
         fs = rng.random() < 0.5
         pg = g.program(final_select=fs)
-        terminal = bool(pg.steps) and pg.steps[-1].kind in ("joinpick", "dupselect")   # frame fully known, no closing select
+        terminal = bool(pg.steps) and pg.steps[-1].kind in TERMINAL   # frame fully known, no closing select
         pg.meta["final_select"] = fs or terminal
         if not (fs or terminal):
             pg.final_cols = None
@@ -409,7 +450,7 @@ def run():
     def add(force, fs, rename=False, k=1):
         for _ in range(k):
             pg = g.program(n_steps=len(force) + rng.randint(0, 1), force=list(force), final_select=fs)
-            terminal = bool(pg.steps) and pg.steps[-1].kind in ("joinpick", "dupselect")
+            terminal = bool(pg.steps) and pg.steps[-1].kind in TERMINAL
             pg.meta["final_select"] = fs or terminal
             if not (fs or terminal):
                 pg.final_cols = None
@@ -433,6 +474,8 @@ def run():
     add(["casealias"], False, k=4 * m)
     add(["derive", "casealias"], False, k=4 * m)
     add(["group_take"], False, k=4 * m)
+    add(["unnamedjoin"], False, k=8 * m)                       # joined sub-pipeline with two un-named columns: reaching the result / behind a closing select
+    add(["sort", "unnamedjoin"], False, rename=True, k=4 * m)
     add(["derive", "group_win", "exclude"], False, k=4 * m)
     recs = E.run_stream(ck, "columns", cases, targets, judge_cols, classify)
     ck.coverage["programs_without_final_select"] = len({r["prql"] for r in recs if not r["program"].meta.get("final_select", True)})
